@@ -107,6 +107,8 @@ macro_rules! set_impl {
                 set: Box<dyn Fn(L)>,
                 set_untracked: Box<dyn Fn(L)>,
                 string: Box<dyn Fn() -> String>,
+                // subscribers: a Memo over the tracked read ("memo_locale") or over a tracked accessor ("memo_t")
+                memo: Box<dyn Fn(&str) -> Box<dyn Fn() -> String>>,
                 owner: Owner,
                 base: Option<leptos_i18n::I18nContext<L>>,
             }
@@ -132,6 +134,15 @@ macro_rules! set_impl {
                 set: Box::new(move |l| ctx.set_locale(l)),
                 set_untracked: Box::new(move |l| ctx.set_locale_untracked(l)),
                 string: Box::new(move || t_string!(ctx, hello).to_string()),
+                memo: Box::new(move |kind: &str| -> Box<dyn Fn() -> String> {
+                    if kind == "memo_locale" {
+                        let m = Memo::new(move |_| ctx.get_locale());
+                        Box::new(move || format!("hello@{}", m.get_untracked().as_str()))
+                    } else {
+                        let m = Memo::new(move |_| t_string!(ctx, hello).to_string());
+                        Box::new(move || m.get_untracked())
+                    }
+                }),
                 owner,
                 base: Some(ctx),
             };
@@ -225,6 +236,15 @@ macro_rules! set_impl {
                             set: Box::new(move |l| sc.set_locale(l)),
                             set_untracked: Box::new(move |l| sc.set_locale_untracked(l)),
                             string: Box::new(move || t_string!(sc, inner).to_string().replace("inner@", "hello@")),
+                            memo: Box::new(move |kind: &str| -> Box<dyn Fn() -> String> {
+                                if kind == "memo_locale" {
+                                    let m = Memo::new(move |_| sc.get_locale());
+                                    Box::new(move || format!("hello@{}", m.get_untracked().as_str()))
+                                } else {
+                                    let m = Memo::new(move |_| t_string!(sc, inner).to_string().replace("inner@", "hello@"));
+                                    Box::new(move || m.get_untracked())
+                                }
+                            }),
                             owner,
                             base: None,
                         });
@@ -244,6 +264,7 @@ macro_rules! set_impl {
                         let flavour = op["flavour"].as_str().unwrap_or("t").to_string();
                         let hs = handles.borrow();
                         let f: Box<dyn Fn() -> String> = match (hs[i].base, flavour.as_str()) {
+                            (_, "memo_locale") | (_, "memo_t") => hs[i].owner.with(|| (hs[i].memo)(flavour.as_str())),
                             (Some(ctx), "t") => {
                                 let v = t!(ctx, hello);
                                 Box::new(move || html(v.clone()))
